@@ -180,6 +180,16 @@ class Built:
     pass
 
 
+def make_sync_domain(negedge=False):
+    """The "sync" domain of a generated program; when it is clocked on the falling edge its clock signal idles
+    at 1 from time 0 on, so that hand-pulsed harnesses can speak of "the active edge" for either polarity."""
+    from amaranth.hdl import ClockDomain, Signal
+    cd = ClockDomain("sync", clk_edge="neg" if negedge else "pos")
+    if negedge:
+        cd.clk = Signal(name="clk", init=1)
+    return cd
+
+
 def build_module(spec, m=None, domain_obj=None, extra=None):
     """Build the real Module through the public DSL. Returns Built with .m, .sigs (env order),
     .cd (the sync ClockDomain), .fsm_objs."""
@@ -187,9 +197,11 @@ def build_module(spec, m=None, domain_obj=None, extra=None):
     b = Built()
     b.m = m = m or Module()
     if domain_obj is None:
-        domain_obj = ClockDomain("sync")
+        domain_obj = make_sync_domain(spec.d.get("negedge", False))
         m.domains.sync = domain_obj
     b.cd = domain_obj
+    b.idle = 1 if domain_obj.clk_edge == "neg" else 0      # clock level between edges
+    b.act = 1 - b.idle                                      # clock level right after the active edge
     sigs = []
     for k, (w, s) in enumerate(spec.inputs):
         sigs.append(Signal(Shape(w, s), name=f"i{k}"))
